@@ -68,7 +68,7 @@ fn main() {
     let ulay = slay.universe();
     ctx.run_slice(Slice::new(format!("layer[{}; deviations <= {}]", slay.name(), bound), ulay.count(), |i, loc| check_layer(&ulay.get_open(i), bound, loc)));
     // evaluation (all programs, including ones with never-written nodes)
-    let progs = if quick { Progs::new(&[2, 3, 4, 6, 7], 3, 2, 1, 1) } else { Progs::new(&[2, 3, 4, 6, 7], 3, 2, 2, 2) };
+    let progs = Progs::new(&[2, 3, 4, 6, 7], 3, 2, 2, 2);
     ctx.run_slice(Slice::new(format!("eval[{}; deviations <= {}]", progs.name(), bound), progs.count(), |i, loc| check_eval(&progs.get(i), &interp, bound, loc)));
     // predicates
     let sp = if quick { Spec::open(3, 1, 2, 1, 1, 2, 2) } else { Spec::open(3, 2, 2, 1, 1, 2, 2) };
